@@ -2,7 +2,8 @@
    Subject: stage.FindDirArtifactOwnerForPath / Stage.Validate (src/stage/stage.go) and
    Index.AddStage / findOwner / FromFile / ToFile (src/index/index.go), as modelled in
    Model/Stage.v over Base/GoPath.v.  Everything is stated at the level of component lists. *)
-From Coq Require Import ZArith NArith Lia ZifyBool ZifyN List Bool Permutation String.
+From Coq Require Import String.
+From Coq Require Import ZArith NArith Lia ZifyBool ZifyN List Bool Permutation.
 From DudV Require Import Base.Bytes Base.Json Base.GoPath Model.Fs Model.Cache Model.Stage.
 Import ListNotations.
 Local Open Scope N_scope.
@@ -373,7 +374,7 @@ Proof.
   - cbn [fdo_walk] in Hw. discriminate.
   - assert (Hdone : Forall okc done /\ okc part /\ Forall okc r).
     { rewrite Hsplit in Hpre. apply Forall_app in Hpre as [H1 H2].
-      inversion H2; subst. repeat split; assumption. }
+      inversion H2 as [|x0 l0 Hp0 Hr0]. split; [exact H1|split; [exact Hp0|exact Hr0]]. }
     destruct Hdone as (Hdone & Hpart & Hr).
     cbn [fdo_walk] in Hw. rewrite (join2_join done part Hdone Hpart) in Hw.
     assert (Hrec : fdo_walk r (join_comps (done ++ [part])) (join_comps pre) arts = Some q ->
@@ -410,7 +411,7 @@ Proof.
   - destruct k1 as [|part' k1]; [contradiction|]. injection Hrest as <- Hr.
     assert (Hdone : Forall okc done /\ okc part).
     { rewrite Hsplit in Hpre. apply Forall_app in Hpre as [H1 H2].
-      inversion H2; subst. split; assumption. }
+      inversion H2 as [|x0 l0 Hp0 Hr0]. split; [exact H1|exact Hp0]. }
     destruct Hdone as (Hdone & Hpart).
     cbn [fdo_walk]. rewrite (join2_join done part Hdone Hpart).
     destruct k1 as [|part2 k1].
@@ -479,7 +480,7 @@ Proof.
   destruct (exists_last Ht) as (t' & c & ->).
   set (qs := comps_of q) in *.
   assert (Hcs' : cs = (qs ++ t') ++ [c]) by (rewrite Hcs, app_assoc; reflexivity).
-  rewrite Hcs' in Hok. apply Forall_app in Hok as [Hpre Hc]. inversion Hc as [|? ? Hc' _]; subst c0 l.
+  rewrite Hcs' in Hok. apply Forall_app in Hok as [Hpre Hc]. inversion Hc as [|? ? Hc' _].
   assert (Hpne : qs ++ t' <> []) by (destruct qs; [contradiction|discriminate]).
   unfold find_dir_owner. rewrite Hcs'.
   rewrite (dir_join_snoc (qs ++ t') c Hpne Hpre (okc_noslash _ Hc')).
@@ -521,3 +522,1217 @@ Proof.
 Qed.
 
 Print Assumptions find_dir_owner_spec.
+
+(* ================================================================================== *)
+(* 3. Pairwise non-overlap, the index invariant, AddStage is exact                     *)
+(* ================================================================================== *)
+
+Fixpoint pairwise {A} (R : A -> A -> Prop) (l : list A) : Prop :=
+  match l with
+  | [] => True
+  | x :: r => Forall (R x) r /\ pairwise R r
+  end.
+
+Lemma pairwise_app {A} (R : A -> A -> Prop) a b :
+  pairwise R (a ++ b) <->
+  pairwise R a /\ pairwise R b /\ (forall x y, In x a -> In y b -> R x y).
+Proof.
+  induction a as [|x0 a IH].
+  - cbn [app pairwise]. split.
+    + intro Hb. split; [exact I|]. split; [exact Hb|]. intros x y [].
+    + intros (_ & Hb & _). exact Hb.
+  - cbn [app pairwise]. rewrite Forall_app, IH. split.
+    + intros ((Fa & Fb) & Pa & Pb & C). split; [split; assumption|]. split; [exact Pb|].
+      intros x y [<-|Hx] Hy.
+      * rewrite Forall_forall in Fb. exact (Fb y Hy).
+      * exact (C x y Hx Hy).
+    + intros ((Fa & Pa) & Pb & C). split; [split|].
+      * exact Fa.
+      * apply Forall_forall. intros y Hy. apply C; [left; reflexivity|exact Hy].
+      * split; [exact Pa|]. split; [exact Pb|]. intros x y Hx Hy. apply C; [right; exact Hx|exact Hy].
+Qed.
+
+Lemma pairwise_perm {A} (R : A -> A -> Prop) l l' :
+  (forall x y, R x y -> R y x) -> Permutation l l' -> pairwise R l -> pairwise R l'.
+Proof.
+  intros Hsym Hperm. induction Hperm as [|x l l' Hp IH|x y l|l l' l'' Hp1 IH1 Hp2 IH2]; intro Hpw.
+  - exact I.
+  - destruct Hpw as [F P]. split; [|exact (IH P)].
+    apply Forall_forall. intros z Hz. rewrite Forall_forall in F. apply F.
+    apply (Permutation_in z (Permutation_sym Hp)). exact Hz.
+  - destruct Hpw as (Fy & Fx & P). inversion Fy as [|? ? Ryx Fy']; subst.
+    split; [constructor; [apply Hsym; exact Ryx|exact Fx]|]. split; [exact Fy'|exact P].
+  - exact (IH2 (IH1 Hpw)).
+Qed.
+
+Lemma pairwise_impl {A} (R R' : A -> A -> Prop) l :
+  (forall x y, R x y -> R' x y) -> pairwise R l -> pairwise R' l.
+Proof.
+  intro Himp. induction l as [|x l IH]; [intros _; exact I|].
+  intros [F P]. split; [|exact (IH P)]. eapply Forall_impl; [|exact F]. apply Himp.
+Qed.
+
+Lemma pairwise_nodup_map {A B} (f : A -> B) l :
+  pairwise (fun a b => f a <> f b) l -> NoDup (map f l).
+Proof.
+  induction l as [|x l IH]; intro Hpw; [constructor|].
+  destruct Hpw as [F P]. cbn [map]. constructor; [|exact (IH P)].
+  intro Hin. apply in_map_iff in Hin as (y & Hy & Hyin).
+  rewrite Forall_forall in F. exact (F y Hyin (eq_sym Hy)).
+Qed.
+
+Lemma pairwise_flat_map_entry {A B} (R : B -> B -> Prop) (f : A -> list B) l e :
+  In e l -> pairwise R (flat_map f l) -> pairwise R (f e).
+Proof.
+  intros Hin Hpw. apply in_split in Hin as (l1 & l2 & ->).
+  rewrite flat_map_app in Hpw. cbn [flat_map] in Hpw.
+  apply pairwise_app in Hpw as (_ & Hpw & _).
+  apply pairwise_app in Hpw as (Hpw & _). exact Hpw.
+Qed.
+
+Definition no_overlap (a b : artifact) : Prop := ~ overlap a b.
+
+Lemma no_overlap_sym a b : no_overlap a b -> no_overlap b a.
+Proof. intros Hn Ho. apply Hn. apply overlap_sym. exact Ho. Qed.
+
+(* a set of artifacts: good paths, and no one equals or lies inside another *)
+Definition arts_ok (arts : list artifact) : Prop :=
+  Forall good_art arts /\ pairwise no_overlap arts.
+
+Definition cross_free (A B : list artifact) : Prop :=
+  forall a b, In a A -> In b B -> ~ overlap a b.
+
+Lemma arts_ok_app A B : arts_ok (A ++ B) <-> arts_ok A /\ arts_ok B /\ cross_free A B.
+Proof.
+  unfold arts_ok, cross_free. rewrite Forall_app, pairwise_app. unfold no_overlap. tauto.
+Qed.
+
+Lemma arts_ok_perm A B : Permutation A B -> arts_ok A -> arts_ok B.
+Proof.
+  intros Hp [Hg Hpw]. split.
+  - apply Forall_forall. intros a Ha. rewrite Forall_forall in Hg. apply Hg.
+    apply (Permutation_in a (Permutation_sym Hp)). exact Ha.
+  - exact (pairwise_perm _ _ _ no_overlap_sym Hp Hpw).
+Qed.
+
+Lemma arts_ok_nodup A : arts_ok A -> NoDup (map a_path A).
+Proof.
+  intros [_ Hpw]. apply pairwise_nodup_map. eapply pairwise_impl; [|exact Hpw].
+  intros a b Hn Heq. apply Hn. left. unfold comps_of. rewrite Heq. reflexivity.
+Qed.
+
+Definition all_outputs (idx : index) : list artifact := flat_map (fun e => s_outputs (snd e)) idx.
+
+(* THE INVARIANT of C10: all outputs recorded in the index have good paths and no two of them
+   (in the same stage or in different stages) overlap *)
+Definition index_wf (idx : index) : Prop := arts_ok (all_outputs idx).
+
+Lemma index_wf_nil : index_wf [].
+Proof. split; [constructor|exact I]. Qed.
+
+Lemma index_wf_cons e idx :
+  index_wf (e :: idx) <->
+  arts_ok (s_outputs (snd e)) /\ index_wf idx /\ cross_free (s_outputs (snd e)) (all_outputs idx).
+Proof. unfold index_wf. cbn [all_outputs flat_map]. apply arts_ok_app. Qed.
+
+Lemma index_wf_entry idx e : index_wf idx -> In e idx -> arts_ok (s_outputs (snd e)).
+Proof.
+  intros [Hg Hpw] Hin. split.
+  - apply Forall_forall. intros a Ha. rewrite Forall_forall in Hg. apply Hg.
+    unfold all_outputs. apply in_flat_map. exists e. split; assumption.
+  - exact (pairwise_flat_map_entry _ _ _ _ Hin Hpw).
+Qed.
+
+Lemma index_wf_perm idx idx' : Permutation idx idx' -> index_wf idx -> index_wf idx'.
+Proof.
+  intros Hp. apply arts_ok_perm. unfold all_outputs. apply Permutation_flat_map. exact Hp.
+Qed.
+
+(* ---- an artifact covers a path: it is recorded at the path or owns it ---- *)
+Definition covers (a : artifact) (cs : list bytes) : Prop :=
+  comps_of a = cs \/ inside cs (comps_of a) (a_norec a).
+
+Lemma overlap_covers o o' :
+  overlap o o' <-> covers o' (comps_of o) \/ inside (comps_of o') (comps_of o) (a_norec o).
+Proof.
+  unfold overlap, owns, covers. split.
+  - intros [H|[H|H]]; [left; left; symmetry; exact H|left; right; exact H|right; exact H].
+  - intros [[H|H]|H]; [left; symmetry; exact H|right; left; exact H|right; right; exact H].
+Qed.
+
+(* what one stage answers in findOwner *)
+Definition stage_res (e : bytes * stage) (p : bytes) : option (bytes * artifact) :=
+  match art_lookup p (s_outputs (snd e)) with
+  | Some a => Some (fst e, a)
+  | None => match find_dir_owner p (s_outputs (snd e)) with
+            | Some a => Some (fst e, a)
+            | None => None
+            end
+  end.
+
+Lemma find_owner_cons e idx p :
+  find_owner (e :: idx) p =
+  match stage_res e p with Some r => Some r | None => find_owner idx p end.
+Proof.
+  destruct e as [sp s]. unfold stage_res. cbn [find_owner fst snd].
+  destruct (art_lookup p (s_outputs s)); [reflexivity|].
+  destruct (find_dir_owner p (s_outputs s)); reflexivity.
+Qed.
+
+Lemma stage_res_some e cs k a :
+  good_comps cs -> Forall good_art (s_outputs (snd e)) ->
+  stage_res e (join_comps cs) = Some (k, a) ->
+  k = fst e /\ In a (s_outputs (snd e)) /\ covers a cs.
+Proof.
+  intros Hg Harts. unfold stage_res. destruct (good_comps_okc _ Hg) as [Hne Hok].
+  destruct (art_lookup (join_comps cs) (s_outputs (snd e))) as [a'|] eqn:El.
+  - intro Heq. injection Heq as <- <-. apply art_lookup_some in El as [Hin Hp].
+    split; [reflexivity|]. split; [exact Hin|]. left. unfold comps_of. rewrite Hp.
+    apply split_join; assumption.
+  - destruct (find_dir_owner (join_comps cs) (s_outputs (snd e))) as [a'|] eqn:Ef; [|discriminate].
+    intro Heq. injection Heq as <- <-. apply find_dir_owner_sound in Ef as [Hin Hi]; try assumption.
+    split; [reflexivity|]. split; [exact Hin|]. right. exact Hi.
+Qed.
+
+Lemma stage_res_none_iff e cs :
+  good_comps cs -> arts_ok (s_outputs (snd e)) ->
+  (stage_res e (join_comps cs) = None <-> forall o', In o' (s_outputs (snd e)) -> ~ covers o' cs).
+Proof.
+  intros Hg Hok. destruct (good_comps_okc _ Hg) as [Hne Hokc].
+  pose proof (arts_ok_nodup _ Hok) as Hnd. destruct Hok as [Harts _].
+  split.
+  - intros Hr o' Hin [Hc|Hc].
+    + unfold stage_res in Hr.
+      destruct (art_lookup (join_comps cs) (s_outputs (snd e))) as [a'|] eqn:El; [discriminate|].
+      apply (art_lookup_none _ _ El o' Hin).
+      rewrite Forall_forall in Harts. destruct (good_art_path o' (Harts o' Hin)) as [_ ->].
+      rewrite Hc. reflexivity.
+    + unfold stage_res in Hr.
+      destruct (art_lookup (join_comps cs) (s_outputs (snd e))) as [a'|]; [discriminate|].
+      destruct (find_dir_owner (join_comps cs) (s_outputs (snd e))) as [a'|] eqn:Ef; [discriminate|].
+      exact (find_dir_owner_complete cs _ o' Hg Harts Hnd Hin Hc Ef).
+  - intro Hall. destruct (stage_res e (join_comps cs)) as [[k a]|] eqn:Er; [|reflexivity].
+    exfalso. apply stage_res_some in Er as (_ & Hin & Hc); try assumption.
+    exact (Hall a Hin Hc).
+Qed.
+
+Lemma find_owner_none_iff idx cs :
+  index_wf idx -> good_comps cs ->
+  (find_owner idx (join_comps cs) = None <-> forall o', In o' (all_outputs idx) -> ~ covers o' cs).
+Proof.
+  intros Hwf Hg. induction idx as [|e idx IH].
+  - cbn [find_owner all_outputs flat_map]. split; [intros _ o' []|reflexivity].
+  - apply index_wf_cons in Hwf as (He & Hwf & _). specialize (IH Hwf).
+    rewrite find_owner_cons. cbn [all_outputs flat_map]. fold (all_outputs idx).
+    pose proof (stage_res_none_iff e cs Hg He) as Hs.
+    split.
+    + intros Hf o' Hin. destruct (stage_res e (join_comps cs)) as [r|]; [discriminate|].
+      apply in_app_or in Hin as [Hin|Hin].
+      * apply Hs; [reflexivity|exact Hin].
+      * apply IH; [exact Hf|exact Hin].
+    + intro Hall.
+      assert (Hn : stage_res e (join_comps cs) = None).
+      { apply Hs. intros o' Hin. apply Hall. apply in_or_app. left. exact Hin. }
+      rewrite Hn. apply IH. intros o' Hin. apply Hall. apply in_or_app. right. exact Hin.
+Qed.
+
+Lemma find_owner_some idx cs k a :
+  Forall good_art (all_outputs idx) -> good_comps cs ->
+  find_owner idx (join_comps cs) = Some (k, a) ->
+  exists e, In e idx /\ k = fst e /\ In a (s_outputs (snd e)) /\ covers a cs.
+Proof.
+  intros Hga Hg. induction idx as [|e idx IH]; [discriminate|].
+  cbn [all_outputs flat_map] in Hga. apply Forall_app in Hga as [Hge Hga].
+  rewrite find_owner_cons. destruct (stage_res e (join_comps cs)) as [[k' a']|] eqn:Er.
+  - intro Heq. injection Heq as -> ->. apply stage_res_some in Er as (Hk & Hin & Hc); try assumption.
+    exists e. split; [left; reflexivity|]. split; [exact Hk|]. split; assumption.
+  - intro Hf. destruct (IH Hga Hf) as (e' & Hin & Hrest). exists e'. split; [right; exact Hin|exact Hrest].
+Qed.
+
+(* the two loops of AddStage *)
+Definition check_new_vs_index (idx : index) (s : stage) : bool :=
+  forallb (fun o => match find_owner idx (a_path o) with Some _ => false | None => true end) (s_outputs s).
+Definition check_index_vs_new (idx : index) (s : stage) : bool :=
+  forallb (fun e => forallb (fun o => match find_dir_owner (a_path o) (s_outputs s) with
+                                      | Some _ => false | None => true end)
+                            (s_outputs (snd e))) idx.
+
+Lemma add_stage_unfold idx path s :
+  add_stage idx path s =
+  match alookup path idx with
+  | Some _ => None
+  | None => if check_new_vs_index idx s && check_index_vs_new idx s
+            then Some (ins_sorted path s idx) else None
+  end.
+Proof. reflexivity. Qed.
+
+Lemma opt_none_true {A} (o : option A) :
+  match o with Some _ => false | None => true end = true <-> o = None.
+Proof. destruct o; split; intro H; (reflexivity || discriminate). Qed.
+
+Lemma check_new_vs_index_iff idx s :
+  index_wf idx -> Forall good_art (s_outputs s) ->
+  (check_new_vs_index idx s = true <->
+   forall o o', In o (s_outputs s) -> In o' (all_outputs idx) -> ~ covers o' (comps_of o)).
+Proof.
+  intros Hwf Hgs. unfold check_new_vs_index. rewrite forallb_forall.
+  rewrite Forall_forall in Hgs. split.
+  - intros Hall o o' Hin Hin'. specialize (Hall o Hin). apply opt_none_true in Hall.
+    destruct (good_art_path o (Hgs o Hin)) as [Hg Hp]. rewrite Hp in Hall.
+    exact (proj1 (find_owner_none_iff idx _ Hwf Hg) Hall o' Hin').
+  - intros Hall o Hin. apply opt_none_true.
+    destruct (good_art_path o (Hgs o Hin)) as [Hg Hp]. rewrite Hp.
+    apply (find_owner_none_iff idx _ Hwf Hg). intros o' Hin'. exact (Hall o o' Hin Hin').
+Qed.
+
+Lemma check_index_vs_new_iff idx s :
+  Forall good_art (all_outputs idx) -> arts_ok (s_outputs s) ->
+  (check_index_vs_new idx s = true <->
+   forall o o', In o (s_outputs s) -> In o' (all_outputs idx) ->
+                ~ inside (comps_of o') (comps_of o) (a_norec o)).
+Proof.
+  intros Hga Hs. pose proof (arts_ok_nodup _ Hs) as Hnd. destruct Hs as [Hgs _].
+  unfold check_index_vs_new. rewrite forallb_forall. rewrite Forall_forall in Hga.
+  split.
+  - intros Hall o o' Hin Hin'. unfold all_outputs in Hin'. apply in_flat_map in Hin' as (e & He & Ho').
+    specialize (Hall e He). rewrite forallb_forall in Hall. specialize (Hall o' Ho').
+    apply opt_none_true in Hall.
+    assert (Hgo' : good_art o').
+    { apply Hga. unfold all_outputs. apply in_flat_map. exists e. split; assumption. }
+    destruct (good_art_path o' Hgo') as [Hg Hp]. rewrite Hp in Hall.
+    exact (proj1 (find_dir_owner_none_iff _ _ Hg Hgs Hnd) Hall o Hin).
+  - intros Hall e He. apply forallb_forall. intros o' Ho'. apply opt_none_true.
+    assert (Hin' : In o' (all_outputs idx)).
+    { unfold all_outputs. apply in_flat_map. exists e. split; assumption. }
+    destruct (good_art_path o' (Hga o' Hin')) as [Hg Hp]. rewrite Hp.
+    apply (find_dir_owner_none_iff _ _ Hg Hgs Hnd). intros o Hin. exact (Hall o o' Hin Hin').
+Qed.
+
+(* AddStage accepts exactly when the key is fresh and no new output overlaps a recorded one *)
+Theorem add_stage_some_iff idx path s idx' :
+  index_wf idx -> arts_ok (s_outputs s) ->
+  (add_stage idx path s = Some idx' <->
+   alookup path idx = None /\ idx' = ins_sorted path s idx /\
+   cross_free (s_outputs s) (all_outputs idx)).
+Proof.
+  intros Hwf Hs. rewrite add_stage_unfold.
+  pose proof (check_new_vs_index_iff idx s Hwf (proj1 Hs)) as H1.
+  pose proof (check_index_vs_new_iff idx s (proj1 Hwf) Hs) as H2.
+  destruct (alookup path idx) as [x|].
+  - split; [discriminate|]. intros (Hd & _); discriminate.
+  - destruct (check_new_vs_index idx s && check_index_vs_new idx s) eqn:Ec.
+    + apply andb_true_iff in Ec as [E1 E2].
+      split.
+      * intro Heq. injection Heq as <-. split; [reflexivity|]. split; [reflexivity|].
+        intros o o' Hin Hin' Hov. apply overlap_covers in Hov as [Hc|Hi].
+        -- exact (proj1 H1 E1 o o' Hin Hin' Hc).
+        -- exact (proj1 H2 E2 o o' Hin Hin' Hi).
+      * intros (_ & -> & _). reflexivity.
+    + split; [discriminate|]. intros (_ & _ & Hcf). exfalso.
+      apply andb_false_iff in Ec as [Ec|Ec].
+      * rewrite (proj2 H1) in Ec; [discriminate|].
+        intros o o' Hin Hin' Hc. apply (Hcf o o' Hin Hin'). apply overlap_covers. left. exact Hc.
+      * rewrite (proj2 H2) in Ec; [discriminate|].
+        intros o o' Hin Hin' Hi. apply (Hcf o o' Hin Hin'). apply overlap_covers. right. exact Hi.
+Qed.
+
+Lemma forallb_false_ex {A} (f : A -> bool) l :
+  forallb f l = false -> exists x, In x l /\ f x = false.
+Proof.
+  induction l as [|x l IH]; [discriminate|]. cbn [forallb]. intro H.
+  apply andb_false_iff in H as [H|H].
+  - exists x. split; [left; reflexivity|exact H].
+  - destruct (IH H) as (y & Hy & Hfy). exists y. split; [right; exact Hy|exact Hfy].
+Qed.
+
+(* C10, "no false rejection / no missed overlap": with a fresh stage path, AddStage rejects
+   exactly when some new output overlaps some recorded output *)
+Theorem add_stage_exact idx path s :
+  index_wf idx -> arts_ok (s_outputs s) -> alookup path idx = None ->
+  (add_stage idx path s = None <->
+   exists o o', In o (s_outputs s) /\ In o' (all_outputs idx) /\ overlap o o').
+Proof.
+  intros Hwf Hs Hfresh. split.
+  - rewrite add_stage_unfold, Hfresh.
+    destruct (check_new_vs_index idx s && check_index_vs_new idx s) eqn:Ec; [discriminate|].
+    intros _. apply andb_false_iff in Ec as [Ec|Ec].
+    + unfold check_new_vs_index in Ec. apply forallb_false_ex in Ec as (o & Hin & Hf).
+      destruct (find_owner idx (a_path o)) as [[k a]|] eqn:Ef; [|discriminate].
+      destruct Hs as [Hgs _]. rewrite Forall_forall in Hgs.
+      destruct (good_art_path o (Hgs o Hin)) as [Hg Hp]. rewrite Hp in Ef.
+      apply find_owner_some in Ef as (e & He & _ & Ha & Hc); [|exact (proj1 Hwf)|exact Hg].
+      exists o, a. split; [exact Hin|]. split.
+      * unfold all_outputs. apply in_flat_map. exists e. split; assumption.
+      * apply overlap_covers. left. exact Hc.
+    + unfold check_index_vs_new in Ec. apply forallb_false_ex in Ec as (e & He & Hf).
+      apply forallb_false_ex in Hf as (o' & Ho' & Hf).
+      destruct (find_dir_owner (a_path o') (s_outputs s)) as [o|] eqn:Ef; [|discriminate].
+      assert (Hin' : In o' (all_outputs idx)).
+      { unfold all_outputs. apply in_flat_map. exists e. split; assumption. }
+      destruct Hwf as [Hga _]. rewrite Forall_forall in Hga.
+      destruct (good_art_path o' (Hga o' Hin')) as [Hg Hp]. rewrite Hp in Ef.
+      apply find_dir_owner_sound in Ef as [Hin Hi]; [|exact Hg|exact (proj1 Hs)].
+      exists o, o'. split; [exact Hin|]. split; [exact Hin'|].
+      apply overlap_covers. right. exact Hi.
+  - intros (o & o' & Hin & Hin' & Hov).
+    destruct (add_stage idx path s) as [idx'|] eqn:Ea; [|reflexivity].
+    exfalso. apply (add_stage_some_iff idx path s idx' Hwf Hs) in Ea as (_ & _ & Hcf).
+    exact (Hcf o o' Hin Hin' Hov).
+Qed.
+
+Print Assumptions add_stage_exact.
+
+(* ================================================================================== *)
+(* 4. The invariant is preserved                                                       *)
+(* ================================================================================== *)
+
+Lemma ins_sorted_perm {A} k (v : A) l :
+  alookup k l = None -> Permutation (ins_sorted k v l) ((k, v) :: l).
+Proof.
+  induction l as [|[k' v'] r IH]; intro Hl; [apply Permutation_refl|].
+  cbn [alookup] in Hl. cbn [ins_sorted].
+  destruct (beqb k k'); [discriminate|].
+  destruct (bltb k k'); [apply Permutation_refl|].
+  eapply perm_trans; [apply perm_skip; exact (IH Hl)|apply perm_swap].
+Qed.
+
+Lemma all_outputs_ins path s idx :
+  alookup path idx = None ->
+  Permutation (all_outputs (ins_sorted path s idx)) (s_outputs s ++ all_outputs idx).
+Proof.
+  intro Hl. unfold all_outputs.
+  change (s_outputs s ++ flat_map (fun e : bytes * stage => s_outputs (snd e)) idx)
+    with (flat_map (fun e : bytes * stage => s_outputs (snd e)) ((path, s) :: idx)).
+  apply Permutation_flat_map. apply ins_sorted_perm. exact Hl.
+Qed.
+
+Theorem add_stage_preserves_wf idx path s idx' :
+  index_wf idx -> arts_ok (s_outputs s) -> add_stage idx path s = Some idx' -> index_wf idx'.
+Proof.
+  intros Hwf Hs Ha. apply (add_stage_some_iff idx path s idx' Hwf Hs) in Ha as (Hl & -> & Hcf).
+  unfold index_wf. eapply arts_ok_perm; [apply Permutation_sym; apply all_outputs_ins; exact Hl|].
+  apply arts_ok_app. split; [exact Hs|]. split; [exact Hwf|exact Hcf].
+Qed.
+
+Lemma all_outputs_aremove_incl k idx o :
+  In o (all_outputs (aremove k idx)) -> In o (all_outputs idx).
+Proof.
+  induction idx as [|[k' v] r IH]; [intros []|].
+  cbn [aremove]. destruct (beqb k k').
+  - intro Hin. cbn [all_outputs flat_map]. apply in_or_app. right. exact (IH Hin).
+  - cbn [all_outputs flat_map]. intro Hin. apply in_app_or in Hin as [Hin|Hin]; apply in_or_app.
+    + left. exact Hin.
+    + right. exact (IH Hin).
+Qed.
+
+Lemma index_wf_aremove k idx : index_wf idx -> index_wf (aremove k idx).
+Proof.
+  induction idx as [|[k' v] r IH]; intro Hwf; [exact Hwf|].
+  apply index_wf_cons in Hwf as (He & Hr & Hcf). cbn [aremove].
+  destruct (beqb k k'); [exact (IH Hr)|].
+  apply index_wf_cons. split; [exact He|]. split; [exact (IH Hr)|].
+  intros a b Ha Hb. apply Hcf; [exact Ha|]. eapply all_outputs_aremove_incl. exact Hb.
+Qed.
+
+Theorem remove_stage_preserves_wf idx path idx' :
+  index_wf idx -> remove_stage idx path = Some idx' -> index_wf idx'.
+Proof.
+  intros Hwf. unfold remove_stage. destruct (alookup path idx); [|discriminate].
+  intro Heq. injection Heq as <-. apply index_wf_aremove. exact Hwf.
+Qed.
+
+Print Assumptions add_stage_preserves_wf.
+Print Assumptions remove_stage_preserves_wf.
+
+(* ================================================================================== *)
+(* 5. findOwner does not depend on the (random) map iteration order                    *)
+(* ================================================================================== *)
+
+Lemma prefix_comparable {A} (a b : list A) : forall ta tb, a ++ ta = b ++ tb ->
+  exists u, a = b ++ u \/ b = a ++ u.
+Proof.
+  revert b. induction a as [|x a IH]; intros b ta tb Heq.
+  - exists b. right. reflexivity.
+  - destruct b as [|y b].
+    + exists (x :: a). left. reflexivity.
+    + cbn [app] in Heq. injection Heq as -> Heq. destruct (IH b ta tb Heq) as (u & [Hu|Hu]).
+      * exists u. left. rewrite Hu. reflexivity.
+      * exists u. right. rewrite Hu. reflexivity.
+Qed.
+
+Lemma inside_inside_overlap cs qa na qb nb :
+  inside cs qa na -> inside cs qb nb ->
+  qa = qb \/ inside qa qb nb \/ inside qb qa na.
+Proof.
+  intros [(ta & Hta & Ha) Hna] [(tb & Htb & Hb) Hnb].
+  assert (Hcmp : qa ++ ta = qb ++ tb) by (rewrite <- Ha; exact Hb).
+  destruct (prefix_comparable qa qb ta tb Hcmp) as (u & [Hu|Hu]).
+  - destruct u as [|u0 u].
+    + left. rewrite Hu, app_nil_r. reflexivity.
+    + right. left. split; [exists (u0 :: u); split; [discriminate|exact Hu]|].
+      destruct Hnb as [Hnb|Hnb]; [left; exact Hnb|exfalso].
+      rewrite Ha, Hu in Hnb. rewrite !app_length in Hnb. cbn [length] in Hnb.
+      destruct ta; [contradiction|]. cbn [length] in Hnb. lia.
+  - destruct u as [|u0 u].
+    + left. rewrite Hu, app_nil_r. reflexivity.
+    + right. right. split; [exists (u0 :: u); split; [discriminate|exact Hu]|].
+      destruct Hna as [Hna|Hna]; [left; exact Hna|exfalso].
+      rewrite Hb, Hu in Hna. rewrite !app_length in Hna. cbn [length] in Hna.
+      destruct tb; [contradiction|]. cbn [length] in Hna. lia.
+Qed.
+
+(* two artifacts that both cover one path overlap *)
+Lemma covers_overlap a b cs : covers a cs -> covers b cs -> overlap a b.
+Proof.
+  unfold covers, overlap, owns. intros [Ha|Ha] [Hb|Hb].
+  - left. rewrite Ha, Hb. reflexivity.
+  - right. left. rewrite Ha. exact Hb.
+  - right. right. rewrite Hb. exact Ha.
+  - destruct (inside_inside_overlap _ _ _ _ _ Ha Hb) as [H|[H|H]];
+      [left; exact H|right; left; exact H|right; right; exact H].
+Qed.
+
+Lemma stage_res_unique e1 e2 cs r1 r2 :
+  good_comps cs -> arts_ok (s_outputs (snd e1) ++ s_outputs (snd e2)) ->
+  stage_res e1 (join_comps cs) = Some r1 -> stage_res e2 (join_comps cs) = Some r2 -> False.
+Proof.
+  intros Hg Hok H1 H2. apply arts_ok_app in Hok as ([Hg1 _] & [Hg2 _] & Hcf).
+  destruct r1 as [k1 a1], r2 as [k2 a2].
+  apply stage_res_some in H1 as (_ & Hin1 & Hc1); try assumption.
+  apply stage_res_some in H2 as (_ & Hin2 & Hc2); try assumption.
+  exact (Hcf a1 a2 Hin1 Hin2 (covers_overlap a1 a2 cs Hc1 Hc2)).
+Qed.
+
+(* at most one stage answers, so every iteration order gives the same owner *)
+Theorem find_owner_unique idx idx' cs :
+  index_wf idx -> good_comps cs -> Permutation idx idx' ->
+  find_owner idx' (join_comps cs) = find_owner idx (join_comps cs).
+Proof.
+  intros Hwf Hg Hperm. induction Hperm as [|e l l' Hp IH|x y l|l l' l'' Hp1 IH1 Hp2 IH2].
+  - reflexivity.
+  - rewrite !find_owner_cons. apply index_wf_cons in Hwf as (_ & Hwf & _).
+    rewrite (IH Hwf). reflexivity.
+  - rewrite !find_owner_cons.
+    destruct (stage_res x (join_comps cs)) as [rx|] eqn:Ex;
+      destruct (stage_res y (join_comps cs)) as [ry|] eqn:Ey; try reflexivity.
+    exfalso. unfold index_wf in Hwf. cbn [all_outputs flat_map] in Hwf.
+    rewrite app_assoc in Hwf. apply arts_ok_app in Hwf as (Hxy & _ & _).
+    exact (stage_res_unique y x cs ry rx Hg Hxy Ey Ex).
+  - rewrite (IH2 (index_wf_perm _ _ Hp1 Hwf)). exact (IH1 Hwf).
+Qed.
+
+Print Assumptions find_owner_unique.
+
+(* ================================================================================== *)
+(* 6. Byte-string order, ins_sorted, sorted indexes, the invariant over operation lists *)
+(* ================================================================================== *)
+
+Lemma beqb_sym a b : beqb a b = beqb b a.
+Proof.
+  destruct (beqb a b) eqn:E1, (beqb b a) eqn:E2; try reflexivity.
+  - apply beqb_eq in E1. subst. rewrite beqb_refl in E2. discriminate.
+  - apply beqb_eq in E2. subst. rewrite beqb_refl in E1. discriminate.
+Qed.
+
+Lemma bltb_irrefl a : bltb a a = false.
+Proof.
+  induction a as [|x a IH]; [reflexivity|]. cbn [bltb]. rewrite N.ltb_irrefl. exact IH.
+Qed.
+
+Lemma bltb_trans a : forall b c, bltb a b = true -> bltb b c = true -> bltb a c = true.
+Proof.
+  induction a as [|x a IH]; intros [|y b] [|z c]; cbn [bltb]; try discriminate; try reflexivity.
+  destruct (N.ltb_spec x y), (N.ltb_spec y x), (N.ltb_spec y z), (N.ltb_spec z y),
+    (N.ltb_spec x z), (N.ltb_spec z x); intros Hab Hbc;
+    try discriminate; try reflexivity; try lia.
+  eapply IH; eassumption.
+Qed.
+
+Lemma bltb_total a : forall b, beqb a b = false -> bltb a b = false -> bltb b a = true.
+Proof.
+  induction a as [|x a IH]; intros [|y b]; cbn [bltb beqb]; try discriminate; try reflexivity.
+  destruct (N.ltb_spec x y), (N.ltb_spec y x), (N.eqb_spec x y); intros Hab Hbc;
+    try discriminate; try reflexivity; try lia.
+Qed.
+
+Lemma bltb_asym a b : bltb a b = true -> bltb b a = false.
+Proof.
+  intro H. destruct (bltb b a) eqn:E; [|reflexivity].
+  pose proof (bltb_trans _ _ _ H E) as Hc. rewrite bltb_irrefl in Hc. discriminate.
+Qed.
+
+Lemma bltb_neq a b : bltb a b = true -> beqb a b = false.
+Proof.
+  intro H. destruct (beqb a b) eqn:E; [|reflexivity].
+  apply beqb_eq in E. subst. rewrite bltb_irrefl in H. discriminate.
+Qed.
+
+(* contradiction search among order facts on a few keys *)
+Ltac ord_contra :=
+  exfalso;
+  repeat match goal with
+  | H : beqb ?a ?b = true |- _ => apply beqb_eq in H; subst
+  end;
+  repeat match goal with
+  | H : beqb ?a ?a = false |- _ => rewrite beqb_refl in H; discriminate
+  | H : bltb ?a ?a = true |- _ => rewrite bltb_irrefl in H; discriminate
+  | H1 : beqb ?a ?b = false, H2 : bltb ?a ?b = false |- _ =>
+      lazymatch goal with
+      | _ : bltb b a = true |- _ => fail
+      | _ => pose proof (bltb_total a b H1 H2)
+      end
+  | H1 : beqb ?b ?a = false, H2 : bltb ?a ?b = false |- _ =>
+      lazymatch goal with
+      | _ : bltb b a = true |- _ => fail
+      | _ => let H' := fresh in
+             assert (H' : beqb a b = false) by (rewrite beqb_sym; exact H1);
+             pose proof (bltb_total a b H' H2)
+      end
+  | H1 : bltb ?a ?b = true, H2 : bltb ?b ?c = true |- _ =>
+      lazymatch goal with
+      | _ : bltb a c = true |- _ => fail
+      | _ => pose proof (bltb_trans a b c H1 H2)
+      end
+  end;
+  congruence.
+
+Ltac ins_cases :=
+  repeat (cbn [ins_sorted];
+    match goal with
+    | |- context [if beqb ?a ?b then _ else _] => destruct (beqb a b) eqn:?
+    | |- context [if bltb ?a ?b then _ else _] => destruct (bltb a b) eqn:?
+    end);
+  cbn [ins_sorted].
+
+(* insertions of distinct keys commute (on any association list) *)
+Theorem ins_sorted_comm {A} k1 k2 (v1 v2 : A) l : beqb k1 k2 = false ->
+  ins_sorted k1 v1 (ins_sorted k2 v2 l) = ins_sorted k2 v2 (ins_sorted k1 v1 l).
+Proof.
+  intro Hne. induction l as [|[k' v'] r IH].
+  - ins_cases; first [reflexivity|ord_contra].
+  - ins_cases; first [reflexivity|rewrite IH; reflexivity|ord_contra].
+Qed.
+
+Lemma alookup_ins_sorted {A} k k' (v : A) l :
+  alookup k (ins_sorted k' v l) = if beqb k k' then Some v else alookup k l.
+Proof.
+  induction l as [|[k2 v2] r IH].
+  - cbn [ins_sorted alookup]. reflexivity.
+  - cbn [ins_sorted alookup].
+    destruct (beqb k' k2) eqn:E1.
+    + cbn [alookup]. destruct (beqb k k') eqn:E2; [reflexivity|].
+      destruct (beqb k k2) eqn:E3; [ord_contra|reflexivity].
+    + destruct (bltb k' k2) eqn:E4.
+      * cbn [alookup]. reflexivity.
+      * cbn [alookup]. rewrite IH. destruct (beqb k k2) eqn:E3; [|reflexivity].
+        destruct (beqb k k') eqn:E2; [ord_contra|reflexivity].
+Qed.
+
+Lemma in_ins_sorted {A} k (v : A) l e :
+  In e (ins_sorted k v l) -> e = (k, v) \/ In e l.
+Proof.
+  induction l as [|[k2 v2] r IH]; cbn [ins_sorted].
+  - intros [<-|[]]. left. reflexivity.
+  - destruct (beqb k k2).
+    + intros [<-|Hin]; [left; reflexivity|right; right; exact Hin].
+    + destruct (bltb k k2).
+      * intros [<-|Hin]; [left; reflexivity|right; exact Hin].
+      * intros [<-|Hin]; [right; left; reflexivity|].
+        destruct (IH Hin) as [->|Hin']; [left; reflexivity|right; right; exact Hin'].
+Qed.
+
+Definition key_lt {A} (a b : bytes * A) : Prop := bltb (fst a) (fst b) = true.
+(* strictly sorted by stage path: what Index.ToFile writes *)
+Definition sorted_keys {A} (l : list (bytes * A)) : Prop := pairwise key_lt l.
+
+Lemma ins_sorted_sorted {A} k (v : A) l :
+  sorted_keys l -> alookup k l = None -> sorted_keys (ins_sorted k v l).
+Proof.
+  induction l as [|[k2 v2] r IH]; intros Hs Hl.
+  - cbn [ins_sorted]. split; [constructor|exact I].
+  - destruct Hs as [F P]. cbn [alookup] in Hl. cbn [ins_sorted].
+    destruct (beqb k k2) eqn:E1; [discriminate|].
+    destruct (bltb k k2) eqn:E2.
+    + split; [|split; assumption]. constructor; [exact E2|].
+      eapply Forall_impl; [|exact F]. intros e He. unfold key_lt in *. cbn [fst] in *.
+      exact (bltb_trans _ _ _ E2 He).
+    + split; [|exact (IH P Hl)]. apply Forall_forall. intros e He.
+      apply in_ins_sorted in He as [->|He].
+      * unfold key_lt. cbn [fst]. apply bltb_total; [exact E1|exact E2].
+      * rewrite Forall_forall in F. exact (F e He).
+Qed.
+
+Lemma aremove_incl {A} k (l : list (bytes * A)) e : In e (aremove k l) -> In e l.
+Proof.
+  induction l as [|[k2 v2] r IH]; [intros []|]. cbn [aremove]. destruct (beqb k k2).
+  - intro H. right. exact (IH H).
+  - intros [<-|H]; [left; reflexivity|right; exact (IH H)].
+Qed.
+
+Lemma aremove_sorted {A} k (l : list (bytes * A)) : sorted_keys l -> sorted_keys (aremove k l).
+Proof.
+  induction l as [|[k2 v2] r IH]; intro Hs; [exact Hs|]. destruct Hs as [F P].
+  cbn [aremove]. destruct (beqb k k2); [exact (IH P)|].
+  split; [|exact (IH P)]. apply Forall_forall. intros e He.
+  rewrite Forall_forall in F. apply F. eapply aremove_incl. exact He.
+Qed.
+
+Lemma ins_sorted_last {A} k (v : A) l :
+  Forall (fun e => bltb (fst e) k = true) l -> ins_sorted k v l = l ++ [(k, v)].
+Proof.
+  induction l as [|[k2 v2] r IH]; intro F; [reflexivity|].
+  inversion F as [|? ? Hlt F']; subst. cbn [fst] in Hlt. cbn [ins_sorted app].
+  rewrite beqb_sym, (bltb_neq _ _ Hlt), (bltb_asym _ _ Hlt). rewrite (IH F'). reflexivity.
+Qed.
+
+(* ---- operation lists ---- *)
+Inductive op := OpAdd (path : bytes) (s : stage) | OpRemove (path : bytes).
+
+Definition apply_op (idx : index) (o : op) : option index :=
+  match o with
+  | OpAdd p s => add_stage idx p s
+  | OpRemove p => remove_stage idx p
+  end.
+
+(* a rejected operation leaves the index as it was (the tool exits with an error) *)
+Definition step_op (idx : index) (o : op) : index :=
+  match apply_op idx o with Some idx' => idx' | None => idx end.
+
+Definition exec_ops (idx : index) (ops : list op) : index := fold_left step_op ops idx.
+
+(* the stages handed to AddStage come out of stage.FromFile, i.e. passed Validate: their own
+   outputs are good and pairwise non-overlapping (validate_intra_stage below) *)
+Definition op_ok (o : op) : Prop :=
+  match o with OpAdd _ s => arts_ok (s_outputs s) | OpRemove _ => True end.
+
+Definition index_inv (idx : index) : Prop := index_wf idx /\ sorted_keys idx.
+
+Lemma apply_op_inv idx o idx' : index_inv idx -> op_ok o -> apply_op idx o = Some idx' -> index_inv idx'.
+Proof.
+  intros [Hwf Hs] Hok Ha. destruct o as [p s|p]; cbn [apply_op op_ok] in *.
+  - split; [exact (add_stage_preserves_wf _ _ _ _ Hwf Hok Ha)|].
+    apply (add_stage_some_iff idx p s idx' Hwf Hok) in Ha as (Hl & -> & _).
+    apply ins_sorted_sorted; assumption.
+  - split; [exact (remove_stage_preserves_wf _ _ _ Hwf Ha)|].
+    unfold remove_stage in Ha. destruct (alookup p idx); [|discriminate].
+    injection Ha as <-. apply aremove_sorted. exact Hs.
+Qed.
+
+Lemma exec_ops_inv ops : forall idx, index_inv idx -> Forall op_ok ops -> index_inv (exec_ops idx ops).
+Proof.
+  induction ops as [|o ops IH]; intros idx Hinv Hok; [exact Hinv|].
+  inversion Hok as [|? ? Ho Hok']; subst. cbn [exec_ops fold_left].
+  apply IH; [|exact Hok']. unfold step_op.
+  destruct (apply_op idx o) as [idx'|] eqn:Ea; [|exact Hinv].
+  exact (apply_op_inv idx o idx' Hinv Ho Ea).
+Qed.
+
+(* C10, the invariant: every index reachable from the empty one by stage adds and removes
+   (accepted or rejected) never holds two overlapping outputs, and is sorted by stage path *)
+Theorem C10_invariant ops :
+  Forall op_ok ops -> index_wf (exec_ops [] ops) /\ sorted_keys (exec_ops [] ops).
+Proof.
+  intro Hok. apply exec_ops_inv; [|exact Hok]. split; [exact index_wf_nil|exact I].
+Qed.
+
+Print Assumptions ins_sorted_comm.
+Print Assumptions C10_invariant.
+
+(* ================================================================================== *)
+(* 7. Acceptance does not depend on the order of the adds                              *)
+(* ================================================================================== *)
+
+Definition add2 (idx : index) (p1 : bytes) (s1 : stage) (p2 : bytes) (s2 : stage) : option index :=
+  match add_stage idx p1 s1 with
+  | Some i => add_stage i p2 s2
+  | None => None
+  end.
+
+Lemma cross_free_sym A B : cross_free A B -> cross_free B A.
+Proof. intros H a b Ha Hb Ho. exact (H b a Hb Ha (overlap_sym _ _ Ho)). Qed.
+
+Lemma cross_free_ins path s idx O :
+  alookup path idx = None ->
+  (cross_free O (all_outputs (ins_sorted path s idx)) <->
+   cross_free O (s_outputs s) /\ cross_free O (all_outputs idx)).
+Proof.
+  intro Hl. pose proof (all_outputs_ins path s idx Hl) as Hp. unfold cross_free. split.
+  - intro H. split; intros a b Ha Hb; apply H; try exact Ha;
+      apply (Permutation_in b (Permutation_sym Hp)); apply in_or_app; [left|right]; exact Hb.
+  - intros [H1 H2] a b Ha Hb. apply (Permutation_in b Hp) in Hb.
+    apply in_app_or in Hb as [Hb|Hb]; [exact (H1 a b Ha Hb)|exact (H2 a b Ha Hb)].
+Qed.
+
+Lemma add2_some_iff idx p1 s1 p2 s2 i :
+  index_wf idx -> arts_ok (s_outputs s1) -> arts_ok (s_outputs s2) ->
+  (add2 idx p1 s1 p2 s2 = Some i <->
+   alookup p1 idx = None /\ alookup p2 idx = None /\ beqb p2 p1 = false /\
+   cross_free (s_outputs s1) (all_outputs idx) /\ cross_free (s_outputs s2) (all_outputs idx) /\
+   cross_free (s_outputs s2) (s_outputs s1) /\
+   i = ins_sorted p2 s2 (ins_sorted p1 s1 idx)).
+Proof.
+  intros Hwf H1 H2. unfold add2. destruct (add_stage idx p1 s1) as [i1|] eqn:E1.
+  - pose proof (add_stage_preserves_wf _ _ _ _ Hwf H1 E1) as Hwf1.
+    apply (add_stage_some_iff idx p1 s1 i1 Hwf H1) in E1 as (L1 & -> & C1).
+    rewrite (add_stage_some_iff _ p2 s2 i Hwf1 H2).
+    rewrite alookup_ins_sorted. rewrite (cross_free_ins p1 s1 idx _ L1).
+    destruct (beqb p2 p1).
+    + split; [intros (Hd & _); discriminate|intros (_ & _ & Hd & _); discriminate].
+    + tauto.
+  - split; [discriminate|]. intros (L1 & _ & _ & C1 & _). exfalso.
+    assert (Ha : add_stage idx p1 s1 = Some (ins_sorted p1 s1 idx)).
+    { apply (add_stage_some_iff idx p1 s1 _ Hwf H1). split; [exact L1|]. split; [reflexivity|exact C1]. }
+    rewrite Ha in E1. discriminate.
+Qed.
+
+(* C10, order independence for two stages: same verdict, and the same index when accepted *)
+Theorem add_order_independent idx p1 s1 p2 s2 :
+  index_wf idx -> arts_ok (s_outputs s1) -> arts_ok (s_outputs s2) ->
+  add2 idx p1 s1 p2 s2 = add2 idx p2 s2 p1 s1.
+Proof.
+  intros Hwf H1 H2.
+  assert (Hdir : forall pa sa pb sb i, arts_ok (s_outputs sa) -> arts_ok (s_outputs sb) ->
+            add2 idx pa sa pb sb = Some i -> add2 idx pb sb pa sa = Some i).
+  { intros pa sa pb sb i Ha Hb Hs.
+    apply (add2_some_iff idx pa sa pb sb i Hwf Ha Hb) in Hs as (La & Lb & Hne & Ca & Cb & Cba & ->).
+    apply (add2_some_iff idx pb sb pa sa _ Hwf Hb Ha).
+    split; [exact Lb|]. split; [exact La|]. split; [rewrite beqb_sym; exact Hne|].
+    split; [exact Cb|]. split; [exact Ca|]. split; [apply cross_free_sym; exact Cba|].
+    apply ins_sorted_comm. exact Hne. }
+  destruct (add2 idx p1 s1 p2 s2) as [i|] eqn:E12.
+  - symmetry. exact (Hdir p1 s1 p2 s2 i H1 H2 E12).
+  - destruct (add2 idx p2 s2 p1 s1) as [i|] eqn:E21; [|reflexivity].
+    rewrite (Hdir p2 s2 p1 s1 i H2 H1 E21) in E12. discriminate.
+Qed.
+
+Corollary add_order_accept_iff idx p1 s1 p2 s2 :
+  index_wf idx -> arts_ok (s_outputs s1) -> arts_ok (s_outputs s2) ->
+  (add2 idx p1 s1 p2 s2 <> None <-> add2 idx p2 s2 p1 s1 <> None).
+Proof. intros Hwf H1 H2. rewrite (add_order_independent idx p1 s1 p2 s2 Hwf H1 H2). tauto. Qed.
+
+(* any number of stages, any permutation *)
+Fixpoint add_all (idx : index) (l : list (bytes * stage)) : option index :=
+  match l with
+  | [] => Some idx
+  | e :: r => match add_stage idx (fst e) (snd e) with
+              | Some i => add_all i r
+              | None => None
+              end
+  end.
+
+Definition entry_ok (e : bytes * stage) : Prop := arts_ok (s_outputs (snd e)).
+
+Theorem add_all_perm l l' :
+  Permutation l l' -> forall idx, index_wf idx -> Forall entry_ok l ->
+  add_all idx l = add_all idx l'.
+Proof.
+  intro Hp. induction Hp as [|e l l' Hp IH|x y l|l l' l'' Hp1 IH1 Hp2 IH2]; intros idx Hwf Hok.
+  - reflexivity.
+  - inversion Hok as [|? ? He Hok']; subst. cbn [add_all].
+    destruct (add_stage idx (fst e) (snd e)) as [i|] eqn:Ea; [|reflexivity].
+    apply IH; [|exact Hok']. exact (add_stage_preserves_wf _ _ _ _ Hwf He Ea).
+  - inversion Hok as [|? ? Hy Hok']; subst. inversion Hok' as [|? ? Hx Hok'']; subst.
+    cbn [add_all].
+    pose proof (add_order_independent idx (fst y) (snd y) (fst x) (snd x) Hwf Hy Hx) as Hc.
+    unfold add2 in Hc.
+    destruct (add_stage idx (fst y) (snd y)) as [iy|]; destruct (add_stage idx (fst x) (snd x)) as [ix|].
+    + rewrite Hc. reflexivity.
+    + rewrite Hc. reflexivity.
+    + rewrite <- Hc. reflexivity.
+    + reflexivity.
+  - rewrite (IH1 idx Hwf Hok). apply IH2; [exact Hwf|].
+    apply Forall_forall. intros e He. rewrite Forall_forall in Hok. apply Hok.
+    apply (Permutation_in e (Permutation_sym Hp1)). exact He.
+Qed.
+
+Print Assumptions add_order_independent.
+Print Assumptions add_all_perm.
+
+(* ================================================================================== *)
+(* 8. The sorted index file written after a successful add loads again                 *)
+(* ================================================================================== *)
+
+Lemma all_outputs_app a b : all_outputs (a ++ b) = all_outputs a ++ all_outputs b.
+Proof. unfold all_outputs. apply flat_map_app. Qed.
+
+Lemma alookup_none_lt {A} k (l : list (bytes * A)) :
+  Forall (fun e => bltb (fst e) k = true) l -> alookup k l = None.
+Proof.
+  induction l as [|[k2 v2] r IH]; intro F; [reflexivity|].
+  inversion F as [|? ? Hlt F']; subst. cbn [fst] in Hlt. cbn [alookup].
+  rewrite beqb_sym, (bltb_neq _ _ Hlt). exact (IH F').
+Qed.
+
+Definition file_of (e : bytes * stage) : bytes * option stage := (fst e, Some (snd e)).
+
+Lemma alookup_files idx k s :
+  sorted_keys idx -> In (k, s) idx -> alookup k (map file_of idx) = Some (Some s).
+Proof.
+  induction idx as [|[k0 s0] r IH]; intros Hs Hin; [contradiction|].
+  destruct Hs as [F P]. cbn [map file_of fst snd alookup].
+  destruct (beqb k k0) eqn:E.
+  - apply beqb_eq in E. subst k0. destruct Hin as [Heq|Hin].
+    + injection Heq as ->. reflexivity.
+    + exfalso. rewrite Forall_forall in F. specialize (F _ Hin). unfold key_lt in F.
+      cbn [fst] in F. rewrite bltb_irrefl in F. discriminate.
+  - destruct Hin as [Heq|Hin].
+    + injection Heq as -> _. rewrite beqb_refl in E. discriminate.
+    + exact (IH P Hin).
+Qed.
+
+Lemma load_index_prefix idx :
+  index_wf idx -> sorted_keys idx ->
+  Forall (fun e => validate (fst e) (snd e) = true) idx ->
+  forall todo done, idx = done ++ todo ->
+  load_index (map fst todo) (map file_of idx) done = Some idx.
+Proof.
+  intros Hwf Hs Hv todo. induction todo as [|[k s] r IH]; intros done Hsplit.
+  - cbn [map load_index]. rewrite Hsplit, app_nil_r. reflexivity.
+  - cbn [map fst load_index].
+    assert (Hin : In (k, s) idx) by (rewrite Hsplit; apply in_or_app; right; left; reflexivity).
+    rewrite (alookup_files idx k s Hs Hin).
+    rewrite Forall_forall in Hv. pose proof (Hv _ Hin) as Hvk. cbn [fst snd] in Hvk. rewrite Hvk.
+    assert (Ha : add_stage done k s = Some (done ++ [(k, s)])).
+    { unfold index_wf in Hwf. rewrite Hsplit in Hwf. rewrite all_outputs_app in Hwf.
+      cbn [all_outputs flat_map] in Hwf. fold (all_outputs r) in Hwf. cbn [snd] in Hwf.
+      apply arts_ok_app in Hwf as (Hdone & Hrest & Hcf).
+      apply arts_ok_app in Hrest as (Hsok & _ & _).
+      unfold sorted_keys in Hs. rewrite Hsplit in Hs. apply pairwise_app in Hs as (_ & _ & Hlt).
+      assert (Hall : Forall (fun e => bltb (fst e) k = true) done).
+      { apply Forall_forall. intros e He. apply (Hlt e (k, s) He). left. reflexivity. }
+      apply (add_stage_some_iff done k s _ Hdone Hsok).
+      split; [apply alookup_none_lt; exact Hall|].
+      split; [symmetry; apply ins_sorted_last; exact Hall|].
+      intros a b Ha Hb Ho. apply (Hcf b a Hb).
+      - apply in_or_app. left. exact Ha.
+      - apply overlap_sym. exact Ho. }
+    rewrite Ha. apply IH. rewrite Hsplit, <- app_assoc. reflexivity.
+Qed.
+
+(* index.ToFile writes the sorted stage paths; index.FromFile re-adds them in that order *)
+Theorem reload idx :
+  index_wf idx -> sorted_keys idx ->
+  Forall (fun e => validate (fst e) (snd e) = true) idx ->
+  load_index (map fst idx) (map (fun e => (fst e, Some (snd e))) idx) [] = Some idx.
+Proof.
+  intros Hwf Hs Hv. exact (load_index_prefix idx Hwf Hs Hv idx [] eq_refl).
+Qed.
+
+(* ... in particular for every index produced by adds/removes of validated stages *)
+Definition op_okv (o : op) : Prop :=
+  match o with
+  | OpAdd p s => arts_ok (s_outputs s) /\ validate p s = true
+  | OpRemove _ => True
+  end.
+
+Definition all_valid (idx : index) : Prop := Forall (fun e => validate (fst e) (snd e) = true) idx.
+
+Lemma step_op_valid idx o : op_okv o -> index_inv idx -> all_valid idx -> all_valid (step_op idx o).
+Proof.
+  intros Hok [Hwf _] Hv. unfold step_op. destruct (apply_op idx o) as [idx'|] eqn:Ea; [|exact Hv].
+  destruct o as [p s|p]; cbn [apply_op op_okv] in *.
+  - destruct Hok as [Hs Hvs].
+    apply (add_stage_some_iff idx p s idx' Hwf Hs) in Ea as (_ & -> & _).
+    apply Forall_forall. intros e He. apply in_ins_sorted in He as [->|He].
+    + exact Hvs.
+    + unfold all_valid in Hv. rewrite Forall_forall in Hv. exact (Hv e He).
+  - unfold remove_stage in Ea. destruct (alookup p idx); [|discriminate]. injection Ea as <-.
+    apply Forall_forall. intros e He. unfold all_valid in Hv. rewrite Forall_forall in Hv.
+    apply Hv. eapply aremove_incl. exact He.
+Qed.
+
+Lemma op_okv_ok o : op_okv o -> op_ok o.
+Proof. destruct o as [p s|p]; [intros [H _]; exact H|intros _; exact I]. Qed.
+
+Lemma exec_ops_valid ops : forall idx, index_inv idx -> all_valid idx -> Forall op_okv ops ->
+  index_inv (exec_ops idx ops) /\ all_valid (exec_ops idx ops).
+Proof.
+  induction ops as [|o ops IH]; intros idx Hinv Hv Hok; [split; assumption|].
+  inversion Hok as [|? ? Ho Hok']; subst. cbn [exec_ops fold_left].
+  apply IH; [| |exact Hok'].
+  - unfold step_op. destruct (apply_op idx o) as [idx'|] eqn:Ea; [|exact Hinv].
+    exact (apply_op_inv idx o idx' Hinv (op_okv_ok _ Ho) Ea).
+  - exact (step_op_valid idx o Ho Hinv Hv).
+Qed.
+
+Theorem reload_reachable ops :
+  Forall op_okv ops ->
+  let idx := exec_ops [] ops in
+  load_index (map fst idx) (map (fun e => (fst e, Some (snd e))) idx) [] = Some idx.
+Proof.
+  intros Hok idx.
+  destruct (exec_ops_valid ops [] (conj index_wf_nil I) (Forall_nil _) Hok) as [[Hwf Hs] Hv].
+  exact (reload idx Hwf Hs Hv).
+Qed.
+
+Print Assumptions reload.
+Print Assumptions reload_reachable.
+
+(* ================================================================================== *)
+(* 9. Stage.Validate and overlaps inside one stage                                     *)
+(* ================================================================================== *)
+
+Lemma cdd_cons2 x y l :
+  contains_dotdot (x :: y :: l) = ((x =? dot) && (y =? dot)) || contains_dotdot (y :: l).
+Proof. reflexivity. Qed.
+
+Lemma cdd_app_slash a b :
+  contains_dotdot (a ++ slash :: b) = contains_dotdot a || contains_dotdot b.
+Proof.
+  induction a as [|x a IH].
+  - cbn [app]. destruct b as [|y b]; [reflexivity|]. rewrite cdd_cons2.
+    change (slash =? dot) with false. reflexivity.
+  - destruct a as [|y a].
+    + cbn [app] in *. rewrite cdd_cons2. change (slash =? dot) with false.
+      rewrite andb_false_r, IH. reflexivity.
+    + change ((x :: y :: a) ++ slash :: b) with (x :: y :: (a ++ slash :: b)).
+      rewrite !cdd_cons2. change (y :: a ++ slash :: b) with ((y :: a) ++ slash :: b).
+      rewrite IH. rewrite orb_assoc. reflexivity.
+Qed.
+
+Lemma cdd_join cs : Forall good_comp cs -> contains_dotdot (join_comps cs) = false.
+Proof.
+  induction cs as [|c cs IH]; intro Hf; [reflexivity|].
+  inversion Hf as [|? ? [_ Hc] Hf']; subst. destruct cs as [|c' cs].
+  - rewrite join_comps_single. exact Hc.
+  - rewrite join_comps_cons2, cdd_app_slash, Hc. cbn [orb]. apply IH. exact Hf'.
+Qed.
+
+Lemma good_path_checks p : good_path p -> contains_dotdot p = false /\ is_abs p = false.
+Proof.
+  intros (cs & Hg & ->). split; [apply cdd_join; exact (proj2 Hg)|].
+  destruct (good_comps_okc _ Hg) as [Hne Hok].
+  destruct (join_okc_head cs Hne Hok) as (x & t & -> & Hx). cbn [is_abs]. apply N.eqb_neq. exact Hx.
+Qed.
+
+Lemma NoDup_app_intro {A} (a b : list A) :
+  NoDup a -> NoDup b -> (forall x, In x a -> ~ In x b) -> NoDup (a ++ b).
+Proof.
+  induction a as [|x a IH]; intros Ha Hb Hd; [exact Hb|].
+  inversion Ha as [|? ? Hx Ha']; subst. cbn [app]. constructor.
+  - intro Hin. apply in_app_or in Hin as [Hin|Hin]; [exact (Hx Hin)|].
+    exact (Hd x (or_introl eq_refl) Hin).
+  - apply IH; [exact Ha'|exact Hb|]. intros y Hy. apply Hd. right. exact Hy.
+Qed.
+
+Lemma inside_irrefl cs n : ~ inside cs cs n.
+Proof.
+  intros [(t & Ht & Heq) _]. apply (f_equal (@length bytes)) in Heq. rewrite app_length in Heq.
+  destruct t; [contradiction|]. cbn [length] in Heq. lia.
+Qed.
+
+Lemma pairwise_in {A} (R : A -> A -> Prop) l a b :
+  (forall x y, R x y -> R y x) -> pairwise R l -> In a l -> In b l -> a = b \/ R a b.
+Proof.
+  intros Hsym. induction l as [|x l IH]; intros Hpw Ha Hb; [contradiction|].
+  destruct Hpw as [F P]. rewrite Forall_forall in F.
+  destruct Ha as [<-|Ha], Hb as [<-|Hb].
+  - left. reflexivity.
+  - right. exact (F b Hb).
+  - right. apply Hsym. exact (F a Ha).
+  - exact (IH P Ha Hb).
+Qed.
+
+Lemma no_owner_pairwise l :
+  NoDup (map a_path l) -> Forall good_art l ->
+  (forall a q, In a l -> In q l -> ~ owns q a) -> pairwise no_overlap l.
+Proof.
+  induction l as [|x l IH]; intros Hnd Hg Hno; [exact I|].
+  cbn [map] in Hnd. inversion Hnd as [|? ? Hx Hnd']; subst.
+  inversion Hg as [|? ? Hgx Hg']; subst.
+  split.
+  - apply Forall_forall. intros y Hy [Heq|[Ho|Ho]].
+    + apply Hx. rewrite Forall_forall in Hg'.
+      rewrite (proj2 (good_art_comps_eq x y Hgx (Hg' y Hy)) Heq). apply in_map. exact Hy.
+    + exact (Hno x y (or_introl eq_refl) (or_intror Hy) Ho).
+    + exact (Hno y x (or_intror Hy) (or_introl eq_refl) Ho).
+  - apply IH; [exact Hnd'|exact Hg'|]. intros a q Ha Hq. apply Hno; right; assumption.
+Qed.
+
+(* Validate, taken apart *)
+Lemma validate_unfold p s :
+  validate p s = true ->
+  contains_dotdot (s_wd s) = false /\ is_abs (s_wd s) = false /\
+  (forall o, In o (s_outputs s) -> a_path o <> p /\ art_lookup (a_path o) (s_inputs s) = None) /\
+  (forall i, In i (s_inputs s) -> a_path i <> p) /\
+  (forall a, In a (s_outputs s ++ s_inputs s) ->
+     contains_dotdot (a_path a) = false /\ is_abs (a_path a) = false /\
+     find_dir_owner (a_path a) (s_outputs s ++ s_inputs s) = None).
+Proof.
+  unfold validate. intro H.
+  apply andb_true_iff in H as [H H7]. apply andb_true_iff in H as [H H6].
+  apply andb_true_iff in H as [H H5]. apply andb_true_iff in H as [H H4].
+  apply andb_true_iff in H as [H H3]. apply andb_true_iff in H as [H1 H2].
+  split; [apply negb_true_iff; exact H1|]. split; [apply negb_true_iff; exact H2|].
+  split; [|split].
+  - intros o Ho. rewrite forallb_forall in H5. specialize (H5 o Ho).
+    apply andb_true_iff in H5 as [Ha Hb]. split.
+    + intro Heq. rewrite Heq, beqb_refl in Ha. discriminate.
+    + apply opt_none_true. exact Hb.
+  - intros i Hi Heq. rewrite forallb_forall in H6. specialize (H6 i Hi).
+    rewrite Heq, beqb_refl in H6. discriminate.
+  - intros a Ha. cbv zeta in H7. rewrite forallb_forall in H7. specialize (H7 a Ha).
+    apply andb_true_iff in H7 as [H7 Hc]. apply andb_true_iff in H7 as [Ha1 Ha2].
+    split; [apply negb_true_iff; exact Ha1|]. split; [apply negb_true_iff; exact Ha2|].
+    apply opt_none_true. exact Hc.
+Qed.
+
+(* C10, inside one stage: a stage that passes Validate lists no artifact (input or output)
+   equal to or inside another of its artifacts.  Outputs and Inputs are Go maps keyed by path,
+   hence the two NoDup hypotheses. *)
+Theorem validate_intra_stage p s :
+  Forall good_art (s_outputs s ++ s_inputs s) ->
+  NoDup (map a_path (s_outputs s)) -> NoDup (map a_path (s_inputs s)) ->
+  validate p s = true ->
+  pairwise no_overlap (s_outputs s ++ s_inputs s).
+Proof.
+  intros Hg Hndo Hndi Hv. apply validate_unfold in Hv as (_ & _ & Hout & _ & Hall).
+  assert (Hnd : NoDup (map a_path (s_outputs s ++ s_inputs s))).
+  { rewrite map_app. apply NoDup_app_intro; [exact Hndo|exact Hndi|].
+    intros x Hx Hx'. apply in_map_iff in Hx as (o & <- & Ho). apply in_map_iff in Hx' as (i & Heq & Hi).
+    destruct (Hout o Ho) as [_ Hl]. exact (art_lookup_none _ _ Hl i Hi Heq). }
+  apply no_owner_pairwise; [exact Hnd|exact Hg|].
+  intros a q Ha Hq Ho. destruct (Hall a Ha) as (_ & _ & Hf).
+  rewrite Forall_forall in Hg. destruct (good_art_path a (Hg a Ha)) as [Hga Hpa]. rewrite Hpa in Hf.
+  apply (find_dir_owner_complete _ _ q Hga) in Hf; try assumption.
+  apply Forall_forall. exact Hg.
+Qed.
+
+Corollary validate_intra_stage_io p s :
+  Forall good_art (s_outputs s ++ s_inputs s) ->
+  NoDup (map a_path (s_outputs s)) -> NoDup (map a_path (s_inputs s)) ->
+  validate p s = true ->
+  pairwise no_overlap (s_inputs s ++ s_outputs s) /\ arts_ok (s_outputs s).
+Proof.
+  intros Hg Hndo Hndi Hv. pose proof (validate_intra_stage p s Hg Hndo Hndi Hv) as Hpw.
+  split.
+  - exact (pairwise_perm _ _ _ no_overlap_sym (Permutation_app_comm _ _) Hpw).
+  - apply Forall_app in Hg as [Hgo _]. apply pairwise_app in Hpw as (Hpo & _ & _).
+    split; assumption.
+Qed.
+
+(* ... and Validate rejects nothing else: with the documented side conditions, a stage whose
+   artifacts have good paths and do not overlap passes.  (That no path is both an input and an
+   output is part of non-overlap.) *)
+Theorem validate_complete p s :
+  contains_dotdot (s_wd s) = false -> is_abs (s_wd s) = false ->
+  (s_inputs s <> [] \/ s_outputs s <> []) ->
+  (s_outputs s <> [] \/ s_cmd s <> []) ->
+  (forall a, In a (s_outputs s ++ s_inputs s) -> a_path a <> p) ->
+  arts_ok (s_outputs s ++ s_inputs s) ->
+  validate p s = true.
+Proof.
+  intros Hwd1 Hwd2 Hio Hoc Hself Hok.
+  pose proof (arts_ok_nodup _ Hok) as Hnd. destruct Hok as [Hg Hpw].
+  unfold validate. rewrite Hwd1, Hwd2. cbn [negb andb].
+  assert (H3 : negb (match s_inputs s, s_outputs s with [], [] => true | _, _ => false end) = true).
+  { destruct (s_inputs s), (s_outputs s); try reflexivity. destruct Hio as [H|H]; contradiction. }
+  assert (H4 : negb (match s_outputs s, s_cmd s with [], [] => true | _, _ => false end) = true).
+  { destruct (s_outputs s), (s_cmd s); try reflexivity. destruct Hoc as [H|H]; contradiction. }
+  rewrite H3, H4. cbn [andb].
+  apply andb_true_iff. split; [apply andb_true_iff; split|].
+  - apply forallb_forall. intros o Ho. apply andb_true_iff. split.
+    + apply negb_true_iff. destruct (beqb (a_path o) p) eqn:E; [|reflexivity].
+      apply beqb_eq in E. exfalso. apply (Hself o); [apply in_or_app; left; exact Ho|exact E].
+    + apply opt_none_true. apply art_lookup_none_intro. intros i Hi Heq.
+      apply pairwise_app in Hpw as (_ & _ & Hcross). apply (Hcross o i Ho Hi).
+      left. unfold comps_of. rewrite Heq. reflexivity.
+  - apply forallb_forall. intros i Hi. apply negb_true_iff.
+    destruct (beqb (a_path i) p) eqn:E; [|reflexivity].
+    apply beqb_eq in E. exfalso. apply (Hself i); [apply in_or_app; right; exact Hi|exact E].
+  - cbv zeta. apply forallb_forall. intros a Ha.
+    pose proof Hg as Hg'. rewrite Forall_forall in Hg'.
+    destruct (good_path_checks _ (Hg' a Ha)) as [Hc1 Hc2]. rewrite Hc1, Hc2. cbn [negb andb].
+    apply opt_none_true. destruct (good_art_path a (Hg' a Ha)) as [Hga Hpa]. rewrite Hpa.
+    apply (find_dir_owner_none_iff _ _ Hga Hg Hnd). intros q Hq Hi.
+    destruct (pairwise_in _ _ a q no_overlap_sym Hpw Ha Hq) as [<-|Hno].
+    + exact (inside_irrefl _ _ Hi).
+    + apply Hno. right. left. exact Hi.
+Qed.
+
+Print Assumptions validate_intra_stage.
+Print Assumptions validate_intra_stage_io.
+Print Assumptions validate_complete.
+
+(* a stage read by stage.FromFile (paths Cleaned, Validate passed) is an admissible operand *)
+Lemma op_okv_of_validate p s :
+  Forall good_art (s_outputs s ++ s_inputs s) ->
+  NoDup (map a_path (s_outputs s)) -> NoDup (map a_path (s_inputs s)) ->
+  validate p s = true -> op_okv (OpAdd p s).
+Proof.
+  intros Hg Hndo Hndi Hv. split; [|exact Hv].
+  exact (proj2 (validate_intra_stage_io p s Hg Hndo Hndi Hv)).
+Qed.
+
+Print Assumptions op_okv_of_validate.
+
+(* ================================================================================== *)
+(* 10. Examples (the two repaired defects, computed on the model)                      *)
+(* ================================================================================== *)
+
+Definition art (p : string) (isdir norec : bool) : artifact := mkArt [] (of_string p) isdir norec false.
+Definition stg (outs : list artifact) : stage := mkStage [] (of_string "true") (of_string ".") [] outs.
+
+(* "a/b/c.txt" is owned by the directory artifact "a/b" (any depth, not just one component) *)
+Example ex_owned_deep :
+  find_dir_owner (of_string "a/b/c.txt") [art "a/b" true false] = Some (art "a/b" true false).
+Proof. vm_compute. reflexivity. Qed.
+
+(* "x/b/y.txt" is NOT owned by the directory artifact "b" *)
+Example ex_not_owned_by_basename :
+  find_dir_owner (of_string "x/b/y.txt") [art "b" true false] = None.
+Proof. vm_compute. reflexivity. Qed.
+
+(* disable-recursion: only the immediate parent owns *)
+Example ex_norec_parent :
+  find_dir_owner (of_string "a/c.txt") [art "a" true true] = Some (art "a" true true).
+Proof. vm_compute. reflexivity. Qed.
+Example ex_norec_deeper :
+  find_dir_owner (of_string "a/b/c.txt") [art "a" true true] = None.
+Proof. vm_compute. reflexivity. Qed.
+
+(* the code never looks at is-dir: a FILE artifact at an ancestor path owns, too *)
+Example ex_isdir_ignored :
+  find_dir_owner (of_string "a/b/c.txt") [art "a/b" false false] = Some (art "a/b" false false).
+Proof. vm_compute. reflexivity. Qed.
+
+(* a single-component path has no owner: Dir is ".", and "." is looked up *)
+Example ex_single_component :
+  find_dir_owner (of_string "a") [art "a" true false; art "b" true false] = None.
+Proof. vm_compute. reflexivity. Qed.
+
+Definition s_file := stg [art "foo/bar.txt" false false].
+Definition s_dir := stg [art "foo" true false].
+Definition p_file := of_string "file.yaml".
+Definition p_dir := of_string "dir.yaml".
+
+(* {foo/bar.txt} then {foo (dir)}: rejected; and so is the reverse order *)
+Example ex_file_then_dir : add2 [] p_file s_file p_dir s_dir = None.
+Proof. vm_compute. reflexivity. Qed.
+Example ex_dir_then_file : add2 [] p_dir s_dir p_file s_file = None.
+Proof. vm_compute. reflexivity. Qed.
+(* each alone is fine *)
+Example ex_file_alone : add_stage [] p_file s_file <> None.
+Proof. vm_compute. discriminate. Qed.
+Example ex_dir_alone : add_stage [] p_dir s_dir <> None.
+Proof. vm_compute. discriminate. Qed.
+
+(* two unrelated stages: accepted in both orders with the same (sorted) index, which reloads *)
+Definition s_other := stg [art "x/b/y.txt" false false; art "b" true false].
+Definition p_other := of_string "other.yaml".
+Example ex_commute : add2 [] p_file s_file p_other s_other = add2 [] p_other s_other p_file s_file
+                     /\ add2 [] p_file s_file p_other s_other <> None.
+Proof. vm_compute. split; [reflexivity|discriminate]. Qed.
+Example ex_reload :
+  match add2 [] p_other s_other p_file s_file with
+  | Some idx => load_index (map fst idx) (map (fun e => (fst e, Some (snd e))) idx) [] = Some idx
+  | None => False
+  end.
+Proof. vm_compute. reflexivity. Qed.
+
+(* Validate: "a/b" next to "a/b/c.txt" in one stage is rejected, "b" next to "x/b/y.txt" is not *)
+Example ex_validate_reject :
+  validate p_file (stg [art "a/b" true false; art "a/b/c.txt" false false]) = false.
+Proof. vm_compute. reflexivity. Qed.
+Example ex_validate_accept : validate p_other s_other = true.
+Proof. vm_compute. reflexivity. Qed.
